@@ -207,6 +207,51 @@ def translate(src, name, inputs, outputs, out_arg, check_alias=True, done=()):
     return lets, res
 
 
+def translate_pred(src, name, inputs, done=()):
+    """int-valued predicates: `int res = 1 | <translated predicate>(&arg)`, `res &= ibz_is_zero(&op)` (ibz_is_zero returns 0/1,
+    so `&=` on an int that is 0/1 is the Boolean and), `return (res)`.  Result: Bool let-chain."""
+    m = re.search(r"\bint\s+%s\s*\(([^)]*)\)\s*\{" % re.escape(name), src)
+    if not m:
+        raise TranslateError("function %s not found in algebra.c" % name)
+    j, depth = m.end(), 1
+    while depth:
+        depth += {"{": 1, "}": -1}.get(src[j], 0)
+        j += 1
+    body = unroll(src[m.end():j - 1], name)
+    lets, cur, k, ret = [], None, 0, None
+    for st in body.split(";"):
+        st = st.strip()
+        if not st:
+            continue
+        if ret is not None:
+            raise TranslateError("%s: statement after return" % name)
+        k += 1
+        m1 = re.match(r"^int\s+res\s*=\s*1$", st)
+        m2 = re.match(r"^int\s+res\s*=\s*(\w+)\s*\((.*)\)$", st)
+        m3 = re.match(r"^res\s*&=\s*ibz_is_zero\s*\((.*)\)$", st)
+        m4 = re.match(r"^return\s*\(?\s*res\s*\)?$", st)
+        if m1:
+            lets.append("  let r%d : Bool := true" % k); cur = "r%d" % k
+        elif m2 and m2.group(1) in done:
+            x = norm(m2.group(2))
+            if not x.endswith("->coord"):
+                raise TranslateError("%s: argument not in subset: %s" % (name, x))
+            lets.append("  let r%d : Bool := %s %s" % (k, m2.group(1), " ".join(inputs["%s[%d]" % (x, i)] for i in range(4))))
+            cur = "r%d" % k
+        elif m3 and cur:
+            op = norm(m3.group(1))
+            if op not in inputs:
+                raise TranslateError("%s: operand not an input: %s" % (name, op))
+            lets.append("  let r%d : Bool := %s && (%s == 0)" % (k, cur, inputs[op])); cur = "r%d" % k
+        elif m4 and cur:
+            ret = cur
+        else:
+            raise TranslateError("%s: statement not in subset: %r" % (name, st))
+    if ret is None:
+        raise TranslateError("%s: no return" % name)
+    return lets, ret
+
+
 def generate(repo, outdir):
     path = os.path.join(repo, "src/quaternion/ref/generic/algebra.c")
     src = strip_c_comments(open(path).read())
@@ -243,6 +288,13 @@ def generate(repo, outdir):
         out += ["/-- `%s`: %s -/" % (name, ", ".join(outputs)),
                 "def %s (%s : Int) : %s :=" % (name, params, ty)] + lets + ["  (%s)" % ", ".join(res), ""]
         done.append(name)
+    lets, r = translate_pred(src, "quat_alg_coord_is_zero", coord("x"))
+    out += ["/-- `quat_alg_coord_is_zero` (C int 0/1 as Bool) -/",
+            "def quat_alg_coord_is_zero (x0 x1 x2 x3 : Int) : Bool :="] + lets + ["  " + r, ""]
+    lets, r = translate_pred(src, "quat_alg_elem_is_zero", {"x->coord[%d]" % i: "x%d" % i for i in range(4)},
+                             done=("quat_alg_coord_is_zero",))
+    out += ["/-- `quat_alg_elem_is_zero` (the denominator is not read) -/",
+            "def quat_alg_elem_is_zero (xd x0 x1 x2 x3 : Int) : Bool :="] + lets + ["  " + r, ""]
     out += ["end SqiGen.QuatAlg", ""]
     changed = write_if_changed(os.path.join(outdir, "QuatAlg.lean"), "\n".join(out))
     return ["QuatAlg.lean regenerated"] if changed else []
